@@ -211,7 +211,7 @@ fn gen_case(r: &mut Rng, id: usize) -> Case {
         scans.push(ScanReq { cols: sc.clone(), range: None, sorted: false });
         scans.push(ScanReq { cols: sc, range: Some((lo, hi)), sorted: false });
     }
-    Case { id, nobg, block, cols, pk, pkdecl, ops, queries, scans }
+    Case { id, nobg, block, cols, pk, pkdecl, ops, ops2: vec![], queries, scans }
 }
 
 fn main() {
